@@ -14,7 +14,7 @@ CFG = {
             "signal with sequences pending, full queue — replayed label by label on the LTS, incl. the drain steps of WaitClose and the quit arm "
             "of the blocking post), cycles with nocons=1 (no consumer, queue full from the start: the input goroutine blocked in its first post, "
             "Resume while the previous input goroutine is still alive), fullclose, sigclose (F53 / F13 schedules, now expected to return with "
-            "nothing left), dblclose, race (the post/suspend and dblclose schedules in a child built with -race); non-trivial = every schedule "
+            "nothing left), sigsuspend (the application's Suspend against the kill-signal Close, both orders), dblclose, race (the post/suspend and dblclose schedules in a child built with -race); non-trivial = every schedule "
             "line, distinct by its parameters",
     "trusted_base": ["the trace conditions checked by the driver for post schedules (per-poster order, no duplicate, nothing invented, no blocking post "
                      "missing) are the observable consequences of the queue LTS",
@@ -25,29 +25,30 @@ CFG = {
                      "Go race detector (supporting evidence only; a reported race is treated as a violation)"],
     "assumptions": ["the terminal answers the DA1 query written by Suspend",
                     "real time abstracted (time-outs / the 10 ms escape timer are nondeterministic labels)",
-                    "Suspend/Resume are called by one (main) goroutine sequentially; Close by any goroutine (input goroutines included: signal arm, panic path)",
-                    "no Close call, kill signal or input-goroutine panic while the main goroutine is inside a bare Suspend (vx.suspended is a plain field; "
-                    "the library does not synchronise Suspend with a concurrent Close)"],
+                    "Resume is called by the application after its Suspend has returned (nobody inside Close/Suspend) and not after Close; "
+                    "Close and Suspend by any goroutine at any time (input goroutines included: signal arm, panic path)"],
     "level_text": "Concurrency, message level. Queue: fifo_per_poster, delivered_sublist_posted for all interleavings and any number of posters; "
                   "blocking_post_never_dropped until Close has completed (PostEventBlocking gives up only on the closed chQuit: "
                   "blocking_post_dropped_only_after_quit); the same over ONE LTS with all actors (posters, queries over the hand-off channels with "
                   "their real capacities, input goroutine, application): no lost event, input never blocked by a hand-off, no deadlock while the "
                   "application receives. Shutdown (F13, F33, F53 all repaired in /repo): a variant function strictly decreases on every scheduler "
                   "label in every state (no schedule runs for ever, no fairness needed); under the protocol invariant — which has NO hypothesis on "
-                  "the queue, the consumer, kill signals or the goroutine Close runs on — EVERY maximal run ends with all callers of Close/Suspend "
+                  "the queue, the consumer, kill signals, the goroutine Close runs on, or who calls Suspend when — EVERY maximal run ends with all callers of Close/Suspend "
                   "returned, the parser goroutine done, and once closed every input goroutine done and chQuit closed exactly once "
                   "(shutdown_completes, close_completes); after a bare Suspend an input goroutine can only be left blocked in a post the application "
                   "has not received (postBlocked; suspend_leaves_nothing otherwise). The invariant holds along every history: any number of "
                   "Suspend/Resume cycles, Resume while the previous input goroutine is alive (it is a component of the LTS), input, SIGWINCH, kill "
-                  "signals, panics of an input goroutine, Close from any goroutine (session_invariant). chQuit closed at most once in every reachable "
+                  "signals, panics of an input goroutine, Close AND Suspend from any goroutine at any moment (Suspend/Resume serialised by suspendMu = "
+                  "suspLock of the LTS; only Resume keeps a side condition) (session_invariant). chQuit closed at most once in every reachable "
                   "state unconditionally. lock_order over all lock sites; goroutine / timer / mutex / lock-site / channel inventory complete (extractor).",
     "level_note": "Partial by nature: data-race freedom (Go memory model) is outside any Lean theorem; -race stress runs are supporting evidence for the "
                   "correspondence only. Goroutine-leak freedom is a theorem of the LTS (goroutines done at rest) and checked on the real code by stack "
                   "dumps after every Suspend/Close of the cycles sessions and after fullclose / sigclose. Source facts the theorems need, pinned to "
                   "Gen/Conc.lean: statement order of Suspend, Resume clearing `suspended`, Close's test-and-set, and (round 3) the statement skeletons "
                   "of Parser.WaitClose / Close / emit / run's tail, PostEvent / PostEventBlocking and the input goroutine (waitclose_drains, "
-                  "input_loop_leaves_on_closed_channel, blocking_post_selects_quit). Assumed, not guaranteed by the code: Suspend/Resume by a "
-                  "sequential main goroutine and no Close / kill signal / panic during a bare Suspend. The escape timer (C08) and the spinner loop "
+                  "input_loop_leaves_on_closed_channel, blocking_post_selects_quit). Assumed, not guaranteed by the code: Resume only after the "
+                  "application's Suspend returned and not after Close. lock_order is computed on a flattened per-function event list (a return in "
+                  "a branch resets the held set; callees by simple name). The escape timer (C08) and the spinner loop "
                   "are not components of the shutdown LTS (the timer's emit is released by the same drain as the parser's).",
     "technique": "Lean 4 invariants over labelled transition systems; go/ast extractor (lock sites, channel capacities); seeded stress harness, -race child",
     "timeout": 3000,
